@@ -226,8 +226,8 @@ def _mentions(t, sub) -> bool:
 SIG_JOIN_SPACE = lambda fld: join(" ", S(fld))
 
 
-def rule_kind_rendering(rep: Report, repo: Repo, rule: str) -> None:
-    """C02-R4."""
+def rule_kind_rendering(rep: Report, repo: Repo, rule: str, only=None) -> None:
+    """C02-R4.  `only`: restrict to these entry classes (a property that owns some kinds only)."""
     rep.rule(rule, "entry kind -> rendering: Function/Macro/Test/Section/CTest/Generic -> `function` (macro: note child; tests and "
                    "generic: warning child), Variable/Option -> `data`, Class -> `py:class`, Method -> `py:method`, Attribute -> "
                    "`py:attribute`, Module -> `module`; generic signature = name(args joined by one space, in order)")
@@ -239,6 +239,8 @@ def rule_kind_rendering(rep: Report, repo: Repo, rule: str) -> None:
         "MethodDocumentation": ("py:method", None), "AttributeDocumentation": ("py:attribute", None),
         "ClassDocumentation": ("py:class", None), "ModuleDocumentation": ("module", None),
     }
+    if only is not None:
+        table = {k: v for k, v in table.items() if k in only}
     for c, (dname, child) in table.items():
         for i, o in enumerate(outcomes(repo, c)):
             ems = emissions(o, i)
@@ -265,6 +267,8 @@ def rule_kind_rendering(rep: Report, repo: Repo, rule: str) -> None:
                           "the module directive is not named after the module entry")
     # generic / ctest signature
     for c in ("GenericCommandDocumentation", "CTestDocumentation"):
+        if only is not None and c not in only:
+            continue
         for i, o in enumerate(outcomes(repo, c)):
             top = top_directive(emissions(o, i))
             if top is None or len(top.args) < 2:
@@ -274,7 +278,7 @@ def rule_kind_rendering(rep: Report, repo: Repo, rule: str) -> None:
             rep.check(parts == exp, rule, where(c), f"signature {show(top.args[1])[:70]}",
                       f"the signature of {c} is not name + '(' + arguments joined by single spaces in list order + ')'",
                       witness="message(STATUS \"a b\" c)")
-    rep.floor(rule, 30, "kind rendering facts")
+    rep.floor(rule, 30 if only is None else 2 * len(table), "kind rendering facts")
 
 
 def rule_signature_template(rep: Report, repo: Repo, rule: str) -> None:
@@ -477,8 +481,18 @@ def rule_class_rendering(rep: Report, repo: Repo, rule: str) -> None:
                     if not ok and len(nm) > 1:
                         # for i, t in enumerate(self.param_types): ... self.params[i] ... t      (and the mirror image)
                         def enum_of(term, fld):
-                            return term[0] == "elem" and o.state.loops.get(term[1]) is not None and \
-                                o.state.loops[term[1]]["iter"] == ("call", glob("enumerate"), (S(fld),), ())
+                            if not (term[0] == "elem" and o.state.loops.get(term[1]) is not None):
+                                return False
+                            it = o.state.loops[term[1]]["iter"]
+                            if it == ("call", glob("enumerate"), (S(fld),), ()):
+                                return True
+                            # enumerate(self.<fld>[:k]): element j of a prefix is element j of the list
+                            if it[0] == "call" and it[1] == glob("enumerate") and len(it[2]) == 1 and not it[3]:
+                                src = it[2][0]
+                                return src[0] == "slice" and src[1] == S(fld) and src[2] in (const(None), const(0)) \
+                                    and (len(src) < 5 or src[4] == const(None)) \
+                                    and not (is_const(src[3]) and isinstance(src[3][1], int) and src[3][1] < 0)
+                            return False
                         n1 = nm[1]
                         if n1[0] == "sub" and n1[1] == S("params") and n1[2][0] == "elem" and n1[2][2] == 0 and enum_of(n1[2], "param_types") \
                                 and val_t == ("elem", n1[2][1], 1):
@@ -707,6 +721,24 @@ def _index_hazards(fn: ast.FunctionDef, parents) -> Tuple[int, List[Tuple[str, s
                     if (tgt == idx and it in (f"range(len({lst}))", f"range(0, len({lst}))")) or \
                             (tgt.startswith(f"({idx}, ") and it == f"enumerate({lst})"):
                         bounded = True
+                    # enumerate(A[:len(LST)]) / enumerate(LST[:k]): at most len(LST) items, so the index stays below it
+                    if tgt.startswith(f"({idx}, ") and isinstance(q.iter, ast.Call) and call_name(q.iter) == "enumerate" \
+                            and len(q.iter.args) == 1 and not q.iter.keywords:
+                        src = q.iter.args[0]
+                        if isinstance(src, ast.Name):
+                            defs = [x.value for x in walk_no_nested(fn) if isinstance(x, ast.Assign) and len(x.targets) == 1
+                                    and isinstance(x.targets[0], ast.Name) and x.targets[0].id == src.id]
+                            if len(defs) == 1:
+                                src = defs[0]
+                        if isinstance(src, ast.Subscript) and isinstance(src.slice, ast.Slice) and src.slice.lower is None \
+                                and src.slice.step is None and src.slice.upper is not None:
+                            up = src.slice.upper
+                            if norm(src.value) == lst and not (isinstance(up, ast.UnaryOp) or (isinstance(up, ast.Constant) and
+                                                                                             isinstance(up.value, int) and up.value < 0)):
+                                bounded = True
+                            if norm(up) == f"len({lst})" or (isinstance(up, ast.Call) and call_name(up) == "min"
+                                                             and any(norm(a) == f"len({lst})" for a in up.args)):
+                                bounded = True
                     # range(min(len(A), len(B))) bounds the index by every list named in the min()
                     if tgt == idx and isinstance(q.iter, ast.Call) and call_name(q.iter) == "range" and q.iter.args:
                         hi = q.iter.args[-1] if len(q.iter.args) <= 2 else q.iter.args[1]
